@@ -45,6 +45,8 @@ inductive Ty where
   | opt (t : Ty) | seq (t : Ty) | map (t : Ty) | prop (t : Ty)
   | st (fs : List (Bytes × Ty))
   | en (vs : List Bytes)
+  /-- fixed-length tuple / array `(T, T, …)`, `[T; n]` (serde `deserialize_tuple`) -/
+  | tup (ts : List Ty)
   deriving Repr
 
 mutual
@@ -52,10 +54,14 @@ mutual
 def Ty.height : Ty → Nat
   | .opt t | .seq t | .map t | .prop t => t.height + 1
   | .st fs => Ty.heightFs fs + 1
+  | .tup ts => Ty.heightTs ts + 1
   | _ => 0
 def Ty.heightFs : List (Bytes × Ty) → Nat
   | [] => 0
   | (_, t) :: r => max t.height (Ty.heightFs r)
+def Ty.heightTs : List Ty → Nat
+  | [] => 0
+  | t :: r => max t.height (Ty.heightTs r)
 end
 
 /-- result values (tyseed.rs `Val` syntax) -/
@@ -67,6 +73,7 @@ inductive Val where
   | st (fs : List (Bytes × Val))
   | prop (op : Op) (v : Val)
   | en (name : Bytes)
+  | tup (vs : List Val)
   deriving Repr
 
 /-- error classes of tyseed.rs `err_class`, plus the panic outcome -/
@@ -557,6 +564,20 @@ def structSeq (toks : List TTok) (deElem : Ty → VK → R Val) : List (Bytes ×
         | .ok v => (structSeq toks deElem rest s' e).map (fun tl => (n, v) :: tl)
     else .error .other -- invalid_length
 
+/-- tyseed.rs `TupleVisitor::visit_seq` on the tape `SeqAccess` (de.rs:1539): exactly `len` elements are asked
+for, a missing one is `invalid_length`; whatever FOLLOWS the last asked element is never looked at -/
+def tTupFold (toks : List TTok) (deElem : Ty → VK → R Val) : List Ty → Nat → Nat → R (List Val)
+  | [], _, _ => .ok []
+  | t :: rest, s, e =>
+    if s < e then
+      match nextIdxValues toks s with
+      | .error x => .error x
+      | .ok s' =>
+        match deElem t (.value s) with
+        | .error x => .error x
+        | .ok v => (tTupFold toks deElem rest s' e).map (fun tl => v :: tl)
+    else .error .other -- invalid_length
+
 /-- tyseed.rs `PropVisitor::visit_map` over a general map: (operator, value) seen so far -/
 def propEntry (enc : Enc) (toks : List TTok) (deVal : VK → R Val)
     (st : Option Op × Option Val) (k : TKey) (vk : VK) : R (Option Op × Option Val) :=
@@ -646,6 +667,12 @@ def tde (enc : Enc) (toks : List TTok) : Nat → Ty → VK → R Val
             | .error x => .error x
             | .ok name => if vs.contains name then .ok (.en name) else .error .other)
        | _ => .error .other)
+    | .tup ts =>
+      -- de.rs:1373 `deserialize_tuple` = `deserialize_seq`
+      (match tShape enc toks shapeFuel .seq vk with
+       | .error x => .error x
+       | .ok (.seq s e) => (tTupFold toks (tde enc toks f) ts s e).map Val.tup
+       | .ok _ => .error .type)
 
 /-- tape path from the root deserializer (de.rs:899): only maps / structs are supported -/
 def deTape (enc : Enc) (ty : Ty) (toks : List TTok) : R Val :=
@@ -728,6 +755,22 @@ def sSeqFold (onElem : RTok → List RTok → R (Val × List RTok)) : Nat → Li
       | .error x => .error x
       | .ok (v, r') =>
         match sSeqFold onElem f r' with
+        | .error x => .error x
+        | .ok (tl, r'') => .ok (v :: tl, r'')
+
+/-- tyseed.rs `TupleVisitor::visit_seq` on `TextReaderSeq` (de.rs:604): exactly `len` elements are asked for; the
+closing brace in place of an element is `invalid_length` -/
+def sTupFold (deElem : Ty → RTok → List RTok → R (Val × List RTok)) : List Ty → List RTok → R (List Val × List RTok)
+  | [], toks => .ok ([], toks)
+  | t :: rest, toks =>
+    match rRead toks with
+    | .error x => .error x
+    | .ok (.close, _) => .error .other
+    | .ok (tok, r) =>
+      match deElem t tok r with
+      | .error x => .error x
+      | .ok (v, r') =>
+        match sTupFold deElem rest r' with
         | .error x => .error x
         | .ok (tl, r'') => .ok (v :: tl, r'')
 
@@ -845,6 +888,17 @@ def sde (enc : Enc) : Nat → Ty → RTok → Op → List RTok → R (Val × Lis
       (match sStr enc tok with
        | .error x => .error x
        | .ok name => if vs.contains name then .ok (.en name, toks) else .error .other)
+    | .tup ts =>
+      -- de.rs:524 `deserialize_tuple` = `deserialize_seq` (de.rs:493): the current token is not looked at; the
+      -- visitor stops after `len` elements without having seen the end (`hit_end` false), so the NEXT token has
+      -- to be the closing brace ("Expected sequence to be terminated with an end token")
+      (match sTupFold (fun t tok r => sde enc f t tok .eq r) ts toks with
+       | .error x => .error x
+       | .ok (vs, r) =>
+         match rRead r with
+         | .error x => .error x
+         | .ok (.close, r') => .ok (.tup vs, r')
+         | .ok _ => .error .other)
 
 /-- stream path from the root deserializer (de.rs:171) -/
 def deStream (enc : Enc) (ty : Ty) (toks : List RTok) : R Val :=
